@@ -46,7 +46,8 @@ type CrashOp struct {
 	// Replica selects the victim among the replicas that take part in the block (modulo).
 	Replica int `json:"replica"`
 	// Point is the kind of crash instant: "hook" (the Hit-th verifhook hit counted from the start
-	// of the replica's Apply), or one of the CometBFT-level instants in crashPoints.
+	// of the replica's Apply), "prunehook" (the Hit-th hit of a NodeDB Prune hook during that
+	// Apply), or one of the CometBFT-level instants in crashPoints.
 	Point string `json:"point"`
 	Hit   int    `json:"hit,omitempty"`
 	// PruneAt lets the victim's pruner run inside the crash window (only if the victim prunes):
@@ -91,6 +92,7 @@ type chainCrash struct {
 	victim    *Replica
 	gid       uint64
 	hits      int
+	pruneHits int
 	sawPrune  bool // NodeDB.Prune ran on the victim before the image was taken
 	height    int64
 	img       *crashImage
@@ -136,6 +138,18 @@ func (s *Sim) crashTarget(b *BlockOp, proposer *Replica) *Replica {
 		}
 		part = append(part, r)
 	}
+	if s.cc.pending.Point == "prunehook" || s.cc.pending.PruneAt > 0 {
+		// A crash that involves the pruner prefers a victim that prunes.
+		var pr []*Replica
+		for _, r := range part {
+			if r.Cfg.PruneKeep > 0 {
+				pr = append(pr, r)
+			}
+		}
+		if len(pr) > 0 {
+			part = pr
+		}
+	}
 	if len(part) == 0 {
 		return nil
 	}
@@ -150,7 +164,7 @@ func (s *Sim) crashTarget(b *BlockOp, proposer *Replica) *Replica {
 func (s *Sim) beginCrash(r *Replica, h int64) {
 	cc := &s.cc
 	cc.active, cc.pending = cc.pending, nil
-	cc.victim, cc.gid, cc.hits, cc.height, cc.img, cc.sawPrune = r, goid(), 0, h, nil, false
+	cc.victim, cc.gid, cc.hits, cc.height, cc.img, cc.sawPrune, cc.pruneHits = r, goid(), 0, h, nil, false, 0
 	prev := append([]byte{}, r.State.AppHash...)
 	take := func(point string) {
 		if cc.img != nil {
@@ -172,8 +186,14 @@ func (s *Sim) beginCrash(r *Replica, h int64) {
 			return // not the victim's goroutine (the simulation runs on one goroutine)
 		}
 		cc.hits++
-		if cc.img == nil && strings.Contains(name, ".Prune.") {
-			cc.sawPrune = true
+		if strings.Contains(name, ".Prune.") {
+			cc.pruneHits++
+			if cc.img == nil {
+				cc.sawPrune = true
+			}
+			if cc.active.Point == "prunehook" && cc.pruneHits == cc.active.Hit {
+				take(name)
+			}
 		}
 		if cc.active.Point == "hook" && cc.hits == cc.active.Hit {
 			take(name)
@@ -215,8 +235,11 @@ func (s *Sim) endCrash(r *Replica, ok bool) {
 	s.St.Add("probe.chaincrash.hook_hits_in_targeted_apply", int64(cc.hits))
 	s.St.Inc(fmt.Sprintf("probe.chaincrash.hooks_per_apply.%02d", min(cc.hits, 40)))
 	if cc.img == nil {
-		if op.Point == "hook" {
+		if op.Point == "hook" || op.Point == "prunehook" {
 			s.St.Inc("probe.chaincrash.hit_beyond_last_hook")
+			if op.Point == "prunehook" {
+				s.St.Inc("probe.chaincrash.hit_beyond_last_prune_hook")
+			}
 			s.St.Event("crash r%d h=%d hit=%d beyond last hook (%d hits)", r.Idx, cc.height, op.Hit, cc.hits)
 		} else {
 			s.St.Inc("probe.chaincrash.point_not_reached")
